@@ -75,16 +75,16 @@ void dsim_scenario() {
     nsrc = dsim::choose(6);
     int mode = dsim::choose(3);      // 0 normal code, 1 coroutine consumer, 2 sources with argument
     int style[8]; for (int &s : style) s = dsim::choose(3);
-    std::vector<long> exp_count(nsrc, 0); int thrower = -1; size_t total = 0; int nthrow = 0;
+    std::vector<long> exp_count(nsrc, 0); int thrower = -1, thrower2 = -1; size_t total = 0; int nthrow = 0;
     for (int s = 0; s < nsrc; s++) {
         scripts[s].n = dsim::choose(MAXK + 1);
         bool over = false;
         for (int k = 0; k < scripts[s].n; k++) {
             int kd = dsim::choose(8);
             scripts[s].kind[k] = kd <= 3 ? Y : kd <= 5 ? AWAIT_OTHER : kd == 6 ? THROW : RET;
-            if (scripts[s].kind[k] == THROW && nthrow) scripts[s].kind[k] = RET;     // at most one throwing source: which of several exceptions is reported is unspecified
+            if (scripts[s].kind[k] == THROW && nthrow >= 2) scripts[s].kind[k] = RET;     // up to two throwing sources; which of their exceptions is reported is unspecified
             if (!over && scripts[s].kind[k] == Y) exp_count[s]++;
-            if (!over && scripts[s].kind[k] == THROW) { thrower = s; nthrow++; over = true; }
+            if (!over && scripts[s].kind[k] == THROW) { if (thrower < 0) thrower = s; else thrower2 = s; nthrow++; over = true; }
             if (scripts[s].kind[k] == RET) over = true;
         }
         total += exp_count[s];
@@ -125,7 +125,7 @@ void dsim_scenario() {
     }
     if (limit >= total) {
         for (int s = 0; s < nsrc; s++) if (next_seq[s] != exp_count[s]) dsim::fail("C14.lost_value", "source %d yields %ld values, %ld were consumed", s, exp_count[s], next_seq[s]);
-        if (thrower >= 0) { if (!o.threw || o.code != thrower) dsim::fail("C14.exception", "source %d throws; consumer saw threw=%d code=%ld ended=%d", thrower, (int)o.threw, o.code, (int)o.ended); }
+        if (thrower >= 0) { if (!o.threw || (o.code != thrower && o.code != thrower2)) dsim::fail("C14.exception", "source %d throws; consumer saw threw=%d code=%ld ended=%d", thrower, (int)o.threw, o.code, (int)o.ended); }
         else if (!o.ended || o.threw) dsim::fail("C14.end", "all sources ended; consumer saw ended=%d threw=%d", (int)o.ended, (int)o.threw);
     } else if (o.vals.size() != limit || o.ended) dsim::fail("C14.end", "consumer asked for %zu of %zu values, got %zu, ended=%d", limit, total, o.vals.size(), (int)o.ended);
     if (mode == 2 && !o.vals.empty()) {
